@@ -563,7 +563,7 @@ func (c *verifC05ccRun) note(kind string) {
 func TestVerifC05CC(t *testing.T) {
 	vc := lnwallet.VerifStart(t, "C05", "resolvers")
 	defer vc.Finish()
-	total := vc.N(260, 6000)
+	total := vc.N(200, 5000)
 	for i := 0; i < total; i++ {
 		if !vc.Mine(i) {
 			continue
